@@ -352,10 +352,12 @@ Exec(s, C) ==
                 C2 == Loop(s, C1, 0)
             IN  IF s.decl THEN [C2 EXCEPT !.env = C.env] ELSE C2
 
-Loop(s, C, n) ==
-    IF C.err # "ok" THEN C
-    ELSE IF n > MaxIter THEN [C EXCEPT !.err = "loop-bound"]
-    ELSE IF True(EvalSelf(s.cond, C)) THEN
+\* One iteration of a for loop on acc = [C, done]: test the condition, run the body, step the variable.
+LoopStep(s, acc) ==
+    LET C == acc.C IN
+    IF acc.done THEN acc
+    ELSE IF C.err # "ok" \/ ~True(EvalSelf(s.cond, C)) THEN [acc EXCEPT !.done = TRUE]
+    ELSE
         LET C1  == Exec(s.body, C)
             v   == [k |-> "id", n |-> s.v]
             C2  == Assign(v, s.step, FALSE, C1)
@@ -366,11 +368,19 @@ Loop(s, C, n) ==
             wrap == /\ s.step.k = "bin" /\ ~HasX(old) /\ ~HasX(new)
                     /\ \/ s.step.op = "-" /\ ULt(old, new)
                        \/ s.step.op = "+" /\ ULt(new, old)
-        IN  IF C1.err # "ok" THEN C1
-            ELSE IF C2.err # "ok" THEN C2
-            ELSE IF wrap /\ True(EvalSelf(s.cond, C2)) THEN [C2 EXCEPT !.err = "loop-wraps"]
-            ELSE Loop(s, C2, n + 1)
-    ELSE C
+        IN  IF C1.err # "ok" THEN [C |-> C1, done |-> TRUE]
+            ELSE IF C2.err # "ok" THEN [C |-> C2, done |-> TRUE]
+            ELSE IF wrap /\ True(EvalSelf(s.cond, C2)) THEN [C |-> [C2 EXCEPT !.err = "loop-wraps"], done |-> TRUE]
+            ELSE [C |-> C2, done |-> FALSE]
+
+\* The iterations are run by a fold, LoopChunk at a time (n = iterations done so far): the recursion stays
+\* shallow however long the loop runs (a deep Java stack makes every garbage collection of TLC slower).
+LoopChunk == 16
+Loop(s, C, n) ==
+    LET r == FoldLeft(LAMBDA a, i : LoopStep(s, a), [C |-> C, done |-> FALSE], Idx(LoopChunk))
+    IN  IF r.done THEN r.C
+        ELSE IF n + LoopChunk > MaxIter THEN [r.C EXCEPT !.err = "loop-bound"]
+        ELSE Loop(s, r.C, n + LoopChunk)
 
 (***************************************************************************)
 (* Processes: initial state, combinational settling, clock edge            *)
